@@ -64,7 +64,7 @@ theorem Sys.shift_record (s : Sys) (x : SideId) (segs : List Segment)
 def ArrOk (s : Sys) (x : SideId) (seg : Segment) : Prop :=
   seg.hdr.srcPort = x.peer.port ∧ seg.hdr.dstPort = x.port ∧
   match (s.side x).tcb with
-  | some t => ArrPre t seg
+  | some t => ArrPre t
   | none =>
     match (s.side x).listen with
     | some _ => True
@@ -173,13 +173,12 @@ def EmitPorts (t : Tcb) (x : SideId) : Prop :=
   ∀ u segs, t.segments = .ok (u, segs) → ∀ sg ∈ segs, sg.hdr.srcPort = x.port
 
 /-- the ops the step theorem covers (everything else is `True`):
-    arriving segments come from the peer and meet `ArrOk`; `close` is not called in SYN-RECEIVED
-    (F-C12-2); `segments()` is not called on a SYN-SENT TCB with a non-zero send window -/
+    arriving segments come from the peer and meet `ArrOk`; `segments()` is not called on a
+    SYN-SENT TCB with a non-zero send window -/
 def Adm (s : Sys) (op : Op) : Prop :=
   match op with
   | .deliver x i => ∀ seg, s.nth i = some seg → ArrOk s x seg
   | .inject x seg => ArrOk s x seg
-  | .close x => ∀ t, (s.side x).tcb = some t → t.state ≠ .SynReceived
   | .emit x => ∀ t, (s.side x).tcb = some t → (t.state = .SynSent → t.snd.wnd = 0) ∧ EmitPorts t x
   | _ => True
 
@@ -286,7 +285,7 @@ theorem Sys.shift_step (s : Sys) (op : Op) (h : Adm s op) :
     cases ht : (s.side x).tcb with
     | none => rfl
     | some t =>
-      simp only [Option.map_some, shift_close _ _ t (h t ht)]
+      simp only [Option.map_some, shift_close _ _ t]
       cases t.close with
       | error e => rfl
       | ok q =>
